@@ -239,6 +239,11 @@ pub fn campaigns(ctx: &Ctx) -> Stats {
         Some("all shapes of rank 1..4 with sizes 1..3: sum(k) for every k in 0..=rank, reshape to every ordered factorisation (rank<=4) and to refused targets (different count, zero dimension), every point-wise function incl. 11 powf exponents"),
         |i| Some(cases[i as usize].clone()),
     ));
+    st.merge(ctx.run_indexed("enumerated-shapes-tracked-operand", cases.len() as u64, None, |i| {
+        let mut c = cases[i as usize].clone();
+        c.leaves[0].tracked = true;
+        Some(c)
+    }));
     let ns = shapes.len() as u64;
     st.merge(ctx.run_indexed("enumerated-scalars", ns * 3, Some("sum_all, sum(0) identity and the softmax row predicates on all shapes of rank 1..4, sizes 1..3"), |i| {
         let s = &shapes[(i / 3) as usize];
@@ -310,7 +315,7 @@ pub fn campaigns(ctx: &Ctx) -> Stats {
     {
         use OpKind::*;
         let groups: Vec<Vec<Vec<usize>>> = vec![vec![vec![3, 1], vec![1, 3], vec![3]], vec![vec![4, 1], vec![4], vec![2, 2]], vec![vec![2, 3, 2], vec![6, 2], vec![12], vec![2, 6]], vec![vec![2, 1, 3], vec![3, 2], vec![1, 6]]];
-        let sops = [Sum(1), Softmax, Sum(2), Exp, Relu, Sigmoid];
+        let sops = [Sum(1), Softmax, Sum(2), Exp, Relu, Sigmoid, ActSoftmax, ActSigmoid, ActRelu];
         st.merge(ctx.run_indexed("call-sequences", (groups.len() * sops.len()) as u64, None, |i| {
             let g = &groups[i as usize % groups.len()];
             let op = sops[i as usize / groups.len()].clone();
